@@ -4,9 +4,14 @@ Nothing here models exactly_lib.  What is replaced, and the documented contract 
 
 * `FakeTextFile` / `FakePath` / `FakeFs` — a regular file opened in *text mode with default
   arguments* on POSIX (`pathlib.Path.open(mode)`), UTF-8:
-    - the file is a sequence of BYTES; `write(s)` stores the UTF-8 encoding of s at the current
-      byte position (overwriting what is there, extending at the end); '\n' is written as '\n'
-      (os.linesep on POSIX), nothing else is translated on output;
+    - the file is a sequence of BYTES; `write(s)` puts the UTF-8 encoding of s into the BUFFER of the file
+      object; the buffer is written at the current byte position of the open file (overwriting what is
+      there, extending at the end) by flush(), seek(), tell(), close() and before reading (the harness only
+      writes texts far below the real buffer size of 8 KiB, so it is never written earlier); '\n' is written
+      as '\n' (os.linesep on POSIX), nothing else is translated on output;
+    - something that writes through the file DESCRIPTOR (`os.write(f.fileno(), ...)`, a child process that got
+      the file as its stdout) puts its bytes at the current byte position of the open file at once, without
+      touching the buffer of the file object: what is still buffered lands AFTER it;
     - reading decodes the bytes from the current position (an undecodable sequence raises
       UnicodeDecodeError) and applies universal-newline translation ('\r\n' and '\r' -> '\n');
       iteration / readline / readlines divide the translated text after each '\n';
@@ -212,7 +217,8 @@ class FakeTextFile:
         self.inode = inode
         self._readable = readable
         self._writable = writable
-        self._pos = 0  # byte offset
+        self._pos = 0  # byte offset of the open file (what the OS knows)
+        self._wbuf = ''  # bytes written to the file object but not yet to the file
         self._rtext = None  # decoded + translated text from _pos on, while reading
         self._rpos = 0
         self._closed = False
@@ -227,6 +233,8 @@ class FakeTextFile:
         self.close()
 
     def close(self):
+        if not self._closed:
+            self._flush()
         self._closed = True
 
     @property
@@ -239,6 +247,33 @@ class FakeTextFile:
 
     def flush(self):
         self._check_open()
+        self._flush()
+
+    def _put(self, e: str):
+        """stores bytes at the byte position of the open file"""
+        k = len(e)
+        if k == 0:
+            return
+        raw = self.inode.raw
+        p = self._pos
+        n = len(raw)
+        if p == n:
+            self.inode.raw = raw + e
+        elif p + k >= n:
+            self.inode.raw = raw[:p] + e
+        else:
+            self.inode.raw = raw[:p] + e + raw[p + k:]
+        self._pos = p + k
+
+    def _flush(self):
+        e = self._wbuf
+        self._wbuf = ''
+        self._put(e)
+
+    def os_write(self, s: str):
+        """os.write(self.fileno(), s.encode()): the bytes go to the file at once, past the buffer"""
+        self._check_open()
+        self._put(utf8_syms(s))
 
     def fileno(self) -> int:
         self._check_open()
@@ -263,18 +298,10 @@ class FakeTextFile:
             raise _real_io.UnsupportedOperation('not writable')
         if self._rtext is not None:
             raise StubContractViolation('fake text file: write after read without seek is not modelled')
-        e = utf8_syms(s)
-        raw = self.inode.raw
-        p = self._pos
-        n = len(raw)
-        k = len(e)
-        if p == n:
-            self.inode.raw = raw + e
-        elif p + k >= n:
-            self.inode.raw = raw[:p] + e
-        else:
-            self.inode.raw = raw[:p] + e + raw[p + k:]
-        self._pos = p + k
+        self._wbuf = self._wbuf + utf8_syms(s)
+        if len(self._wbuf) > 4000:
+            raise StubContractViolation('fake text file: more than 4000 bytes buffered (the real buffer would be '
+                                        'written by now; not modelled)')
         return len(s)
 
     def writelines(self, lines):
@@ -284,6 +311,7 @@ class FakeTextFile:
     # ---- positioning
     def seek(self, offset: int, whence: int = 0) -> int:
         self._check_open()
+        self._flush()
         self._rtext = None
         self._rpos = 0
         if whence == 0:
@@ -302,6 +330,7 @@ class FakeTextFile:
         self._check_open()
         if self._rtext is not None and self._rpos != 0:
             raise StubContractViolation('fake text file: tell() in the middle of reading is not modelled')
+        self._flush()
         return self._pos
 
     # ---- reading
@@ -310,6 +339,7 @@ class FakeTextFile:
         if not self._readable:
             raise _real_io.UnsupportedOperation('not readable')
         if self._rtext is None:
+            self._flush()
             raw = self.inode.raw
             p = self._pos
             rest = raw if p == 0 else raw[p:]
@@ -509,6 +539,24 @@ class _FilecmpStub:
         return a == b
 
 
+class _SubprocessStub:
+    """What process_executor uses of the `subprocess` module: call().  The only program that exists is
+    `printf %s TEXT`; the child writes TEXT through the file DESCRIPTOR of the file it got as stdout."""
+    import subprocess as _real
+    DEVNULL = _real.DEVNULL
+    TimeoutExpired = _real.TimeoutExpired
+
+    def call(self, args, stdin=None, stdout=None, stderr=None, env=None, timeout=None, shell=False):
+        if shell or len(args) != 3 or args[0] != 'printf' or args[1] != '%s':
+            raise StubContractViolation('subprocess stub: only `printf %s TEXT` exists')
+        if stdout is None:
+            raise StubContractViolation('subprocess stub: stdout of the parent process is not modelled')
+        if stdout is not self.DEVNULL:
+            write_to_fd(stdout.fileno(), args[2])
+        return 0
+
+
+_SUBPROCESS = _SubprocessStub()
 _OS = _OsStub()
 _FILECMP = _FilecmpStub()
 
@@ -525,7 +573,7 @@ _INSTALLED = False
 def write_to_fd(fd: int, text: str):
     """What a child process does that was given the descriptor as its stdout and prints `text`."""
     if _INSTALLED:
-        handle_of_fd(fd).write(text)
+        handle_of_fd(fd).os_write(text)
     else:
         import os
         os.write(fd, text.encode('utf-8'))
@@ -540,7 +588,7 @@ def file_bytes_as_text(path) -> str:
 
 def install(fs: FakeFs):
     """Rebinds the module attributes through which the string-source code reaches the OS:
-    spooled_file._io, frozen.os, equality.filecmp."""
+    spooled_file._io, frozen.os, equality.filecmp, process_executor.subprocess."""
     from exactly_lib.util.file_utils import spooled_file
     from exactly_lib.impls.types.string_source.contents import frozen
     from exactly_lib.impls.types.string_matcher.impl import equality
@@ -548,9 +596,11 @@ def install(fs: FakeFs):
     _INSTALLED = True
     _OS.fs = fs
     _FILECMP.fs = fs
+    from exactly_lib.util.process_execution import process_executor
     spooled_file._io = _IoStub
     frozen.os = _OS
     equality.filecmp = _FILECMP
+    process_executor.subprocess = _SUBPROCESS
 
 
 def uninstall():
@@ -561,9 +611,12 @@ def uninstall():
     from exactly_lib.impls.types.string_matcher.impl import equality
     global _INSTALLED
     _INSTALLED = False
+    import subprocess
+    from exactly_lib.util.process_execution import process_executor
     spooled_file._io = _real_io
     frozen.os = os
     equality.filecmp = filecmp
+    process_executor.subprocess = subprocess
 
 
 # --------------------------------------------------------------------------- self-test
@@ -646,6 +699,37 @@ def selftest(scratch_dir: str) -> int:
                 assert real.read_bytes() == _syms_to_bytes(fs.raw_of(fake)), (t, more, k)
                 os.unlink(str(real))
                 n += 3
+
+    # (2b) writes through the descriptor (os.write) between buffered writes, with / without flush, x / x+ / w+
+    for mode in ('x', 'x+', 'w+'):
+        for script in (['wa', 'oC', 'wb'], ['wa', 'f', 'oC', 'wb'], ['oC', 'wa'], ['wa', 'wb', 'oC', 'oD', 'f', 'wé'],
+                       ['wa\n', 'oé', 't', 'oC', 'wb'], ['wab', 's1', 'oC', 'wd'], ['wa', 'oC', 'f', 'oD', 'wb', 'oE']):
+            fs = FakeFs()
+            real = root / ('o%d' % j)
+            j += 1
+            fake = fs.path('o')
+            fr = real.open(mode)
+            ff = fake.open(mode)
+            for op in script:
+                if op[0] == 'w':
+                    fr.write(op[1:])
+                    ff.write(op[1:])
+                elif op[0] == 'o':
+                    os.write(fr.fileno(), op[1:].encode('utf-8'))
+                    ff._fs.handles[ff.fileno()].os_write(op[1:])
+                elif op[0] == 'f':
+                    fr.flush()
+                    ff.flush()
+                elif op[0] == 't':
+                    assert fr.tell() == ff.tell(), (mode, script)
+                elif op[0] == 's':
+                    fr.seek(int(op[1:]), 0)
+                    ff.seek(int(op[1:]), 0)
+            fr.close()
+            ff.close()
+            assert real.read_bytes() == _syms_to_bytes(fs.raw_of(fake)), (mode, script, real.read_bytes(), fs.raw_of(fake))
+            os.unlink(str(real))
+            n += 1
 
     # (3) w+ on an existing file truncates; x on an existing file fails
     fs = FakeFs()
